@@ -70,10 +70,11 @@ func isCtrlStoreIface(t types.Type) bool {
 }
 
 // rootClass classifies the receiver of a Store method call inside declaration d.
-//   param:<name>   a parameter of the enclosing function or literal whose type is the Store interface
-//   begin:<name>   a local variable assigned from X.BeginTX(...) / X.LockLedger(...)
-//   adapter        <receiver>.Store where the method receiver is one of the runtime adapters
-//   field:<path>   anything else (e.g. ctrl.store)
+//
+//	param:<name>   a parameter of the enclosing function or literal whose type is the Store interface
+//	begin:<name>   a local variable assigned from X.BeginTX(...) / X.LockLedger(...)
+//	adapter        <receiver>.Store where the method receiver is one of the runtime adapters
+//	field:<path>   anything else (e.g. ctrl.store)
 func rootClass(info *types.Info, d *astx.DeclInfo, recv ast.Expr) string {
 	root := astx.RootIdent(recv)
 	if root == nil {
